@@ -121,3 +121,25 @@ func C03_Twice[T signal.SignalTypes]() {
 		vf.Assert("twice-contents", vf.SameBits(dst.Sample(p), want[p]))
 	}
 }
+
+// C03_ThenOther: after the destination moved to new storage, a growing append on an unrelated buffer
+// still leaves the old storage (and every view of it) alone, and is not aliased to it.
+func C03_ThenOther[T signal.SignalTypes]() {
+	C := vf.Pick("C", 1, vf.Param("MaxC", 2))
+	K := vf.Pick("K", 1, vf.Param("MaxK", 3))
+	base := allocAny[T](C, K, "base")
+	p := base.Slice(0, K)
+	p.Append(allocAny[T](C, 1, "more")) // p moves: base is now old storage, still viewed
+	old := contents(base)
+	q := allocAny[T](C, vf.Pick("kq", 0, 1), "q")
+	add := allocAny[T](C, vf.Pick("ka", 1, K), "add")
+	want := append(contents(q), contents(add)...)
+	q.Append(add) // grows (q was full)
+	vf.Cover("second-growth")
+	k := vf.IntRange("k", 0, base.Len()-1)
+	vf.Assert("old-storage-untouched-by-unrelated-append", vf.SameBits(base.Sample(k), old[k]))
+	j := vf.IntRange("j", 0, len(want)-1)
+	vf.Assert("unrelated-append-contents", vf.SameBits(q.Sample(j), want[j]))
+	base.SetSample(k, vf.Any[T]("v"))
+	vf.Assert("unrelated-buffer-not-aliased-to-old-storage", vf.SameBits(q.Sample(j), want[j]))
+}
